@@ -39,8 +39,8 @@ def test_names(thorough):
 
 
 @st.composite
-def cases(draw, thorough=False):
-    spec = draw(gen.worlds(max_layers=2, min_layers=0, hooks='layer', kinds=gen.ALL_KINDS, max_modules=2, depth=1,
+def cases(draw, thorough=False, procs=False):
+    spec = draw(gen.worlds(max_layers=3 if procs else 2, min_layers=2 if procs else 0, hooks='layer', kinds=gen.ALL_KINDS, max_modules=2, depth=1,
                            max_tests=4, weights_good=40, layer_decl=50, explicit_unit=True, max_children=3,
                            excs=gen.ALL_EXCS))
     hostile = draw(st.sampled_from(['all', 'all', 'names-only', 'none']))
@@ -77,6 +77,35 @@ def cases(draw, thorough=False):
         spec['modules'][0]['tree']['ch'].append(node)
     opts = {'repeat': draw(st.sampled_from([1, 1, 2])), 'verbose': draw(st.integers(0, 2)),
             'buffer': draw(st.sampled_from([False, False, True]))}
+    # tests that print hostile characters (what --buffer captures may end up in the report as well); lone surrogates are
+    # left out here because writing them to a stream can itself raise inside the test
+    for node, t in gen.iter_tests(spec):
+        if draw(st.integers(0, 3)) == 0:
+            text = ''.join(c for c in draw(messages()) if not 0xD800 <= ord(c) <= 0xDFFF)
+            t.setdefault('acts', {}).setdefault(draw(st.sampled_from(['setUp', 'body'])), []).append(
+                ['out', draw(st.sampled_from(['o', 'e'])), text + '\n'])
+    if procs:
+        # a layer subprocess prints to a pipe in strict UTF-8: lone surrogates cannot be printed there (environment
+        # precondition "the console can encode what is printed"), so they are left out of everything that gets printed
+        def clean(s):
+            return ''.join(c for c in s if not 0xD800 <= ord(c) <= 0xDFFF)
+        for node, t in gen.iter_tests(spec):
+            if 'msg' in t:
+                t['msg'] = clean(t['msg'])
+        for m in spec['modules']:
+            for ch in m['tree']['ch']:
+                if ch.get('t') == 'd':
+                    import re
+                    ch['examples'] = [[re.sub(r'\\ud[89a-fA-F][0-9a-fA-F]{2}', '?', clean(a)), clean(b)]
+                                      for a, b in ch['examples']]
+        for L in spec['layers']:
+            L['hooks'] = sorted(set(L['hooks']) | {'setUp', 'tearDown'}, key=gen.HOOKS.index)
+        mode = draw(st.sampled_from(['resume', 'resume', 'j2', 'j3']))
+        if mode == 'resume':
+            for L in spec['layers']:
+                L.setdefault('faults', {})['tearDown'] = 'NIE'
+        else:
+            opts['j'] = int(mode[1])
     return {'spec': spec, 'opts': opts}
 
 
@@ -246,6 +275,29 @@ class InProc(Part):
         return Outcome(viol, labels, hostile or special)
 
 
+class Procs(Part):
+    """the same oracle when the layers run in subprocesses (resumed after NotImplementedError tear-downs, or -j N): every
+    process writes the reports of its own tests into the one folder"""
+    name = 'procs'
+    examples = {'quick': 96, 'thorough': 1500}
+
+    def strategy(self, tier):
+        return cases(thorough=False, procs=True)
+
+    def execute(self, case):
+        spec = common.with_prefix(case['spec'])
+        folder = tempfile.mkdtemp(prefix='ztv-xml-', dir=drive.tmp_root())
+        try:
+            opts = dict(case['opts'], xml=folder)
+            run = drive.run_inproc(spec, common.args_of(opts), disk=True)
+            viol = oracle(spec, opts, run, folder)
+        finally:
+            shutil.rmtree(folder, ignore_errors=True)
+        from .. import traceana
+        nchild = len(traceana.by_pid(run.trace)) - 1
+        return Outcome(viol, ['children=%d' % min(nchild, 4), 'j' if opts.get('j') else 'resume'], nchild >= 2)
+
+
 class C17(Prop):
     id = 'C17'
     registered = True
@@ -264,7 +316,7 @@ class C17(Prop):
             'outside XML 1.0 Char, or the world has failing subtests / an unexpected success.')
     assumptions = ('a subtest counts as reported under its own test when classname is the test\'s class and the name '
                    'starts with "<method> "',)
-    parts = (InProc(),)
+    parts = (InProc(), Procs())
 
 
 PROP = C17()
